@@ -252,6 +252,51 @@ Theorem C04_checker_sound_list : forall l1 l2, perm_eqb l1 l2 = true -> forall x
 Proof. exact perm_eqb_sound. Qed.
 Print Assumptions C04_checker_sound_list.
 
+(** ONE request passing through several balancers (a mirror pool next to the main pool, several
+    Proxy filters of one pipeline, candidate pools): every stage's outcome is [choose] applied to
+    THAT stage's key ([stage_key]: the client address for ipHash, the value of the stage's own
+    header for headerHash) and list, for any stages before or after it, any counters and draws -
+    so two requests with equal keys at a hash stage get the same server there, whatever else they
+    carry and whatever the other stages hashed or chose. *)
+Theorem C04_chain_choice_depends_only_on_own_key :
+  (forall q stages r envs s p hk l t d,
+     nth_error stages s = Some (p, hk, l) -> nth_error envs s = Some (t, d) ->
+     nth_error (chain_run q stages r envs) s = Some (choose q p l {| tk := t; dr := d; ky := stage_key p hk r |})) /\
+  (forall q stages r1 r2 envs1 envs2 s p hk l t1 d1 t2 d2,
+     nth_error stages s = Some (p, hk, l) ->
+     p = IPHash \/ p = HeaderHash ->
+     nth_error envs1 s = Some (t1, d1) -> nth_error envs2 s = Some (t2, d2) ->
+     stage_key p hk r1 = stage_key p hk r2 ->
+     nth_error (chain_run q stages r1 envs1) s = nth_error (chain_run q stages r2 envs2) s).
+Proof. split; [exact chain_run_nth|exact chain_own_key]. Qed.
+Print Assumptions C04_chain_choice_depends_only_on_own_key.
+
+(** soundness of the chain checker: every stage's column of observations (its key and its choice
+    for each request, in order) satisfies the segment clauses (1)-(4), and at a hash stage two
+    requests with the same key AT THAT STAGE got the same server at that stage - nothing else the
+    requests carry (other headers, client address, the other stages' keys and choices) matters *)
+Theorem C04_checker_sound_chain : forall stages reqs,
+  prop_chain stages reqs = true ->
+  forall s pol hk n, nth_error stages s = Some (pol, hk, n) ->
+    seg_clauses (policy_of_string pol) (stage_ws n) 0 (column s reqs) /\
+    (policy_of_string pol = IPHash \/ policy_of_string pol = HeaderHash ->
+     forall j1 j2 r1 r2, nth_error reqs j1 = Some r1 -> nth_error reqs j2 = Some r2 ->
+       fst (nth s (snd r1) (""%string, -4)) = fst (nth s (snd r2) (""%string, -4)) ->
+       snd (nth s (snd r1) (""%string, -4)) = snd (nth s (snd r2) (""%string, -4))).
+Proof. exact prop_chain_sound. Qed.
+Print Assumptions C04_checker_sound_chain.
+
+Example C04_chain_nonvacuous :
+  let st := [("ipHash", "", 3); ("headerHash", "X-User", 5)]%string in
+  (* same X-User, different client address: same server at stage 1, different at stage 0: accepted *)
+  prop_chain st [("bob", "", [("10.0.0.1", 1); ("bob", 4)]); ("bob", "", [("8.8.8.8", 2); ("bob", 4)])]%string = true /\
+  (* stage 1 following stage 0's hash (the shape of a hash cached on the request): rejected *)
+  prop_chain st [("bob", "", [("10.0.0.1", 1); ("bob", 4)]); ("bob", "", [("8.8.8.8", 2); ("bob", 2)])]%string = false /\
+  chain_run ideal [(IPHash, "", mk_servers [0; 0; 0]); (HeaderHash, "X-User", mk_servers [0; 0; 0; 0; 0])]%string
+            {| q_ip := "10.0.0.1"; q_hdr := fun _ => "bob"%string |} [(0, 0); (0, 0)]
+  = [Chosen (Z.of_N (fnv32 "10.0.0.1") mod 3); Chosen (Z.of_N (fnv32 "bob") mod 5)].
+Proof. vm_compute. repeat split; reflexivity. Qed.
+
 (** non-vacuity of the soundness theorems: an accepted history with a replacement in the middle,
     round robin; an accepted ipHash segment with the EMPTY key; and histories the checker rejects
     (imbalance, a target outside the current list, no-server although the list is not empty,
